@@ -136,3 +136,195 @@ def _(E):
         lo_x, lo_y, hi_x, hi_y = Min(lo_x, bb[0]), Min(lo_y, bb[1]), Max(hi_x, bb[2]), Max(hi_y, bb[3])
     E.ensure("union_of_rendered_descendants", And(r[0] == lo_x, r[1] == lo_y, r[2] == hi_x, r[3] == hi_y))
     E.ensure("empty_group_has_no_box", E.is_none(E.call(E.construct("Group"), "bbox")))
+
+
+# --------------------------------------------------------------------------------------------------
+# cubic Bezier: extrema by the closed form of the derivative's roots
+# --------------------------------------------------------------------------------------------------
+def cubic(a, t):
+    u = 1 - t
+    return u * u * u * a[0] + 3 * u * u * t * a[1] + 3 * u * t * t * a[2] + t * t * t * a[3]
+
+
+@ob("C08/lemma/cubic_minus_critical_value_factorises", kind="L", samples=0, props=["C08"])
+def _(E):
+    """X(t) - X(r) = -D (t - r)^2 (t - s) for a root r of X' and s = (3 r' - r)/2, r' the other root; stated with
+    denominators cleared: D*r and D*r' are R = tau + q, R' = tau - q with q^2 = tau^2 + D*c (the code's delta)"""
+    a = E.reals("a0 a1 a2 a3")
+    t, q, r, r2 = E.reals("t q r r2")
+    D = a[0] - 3 * a[1] + 3 * a[2] - a[3]
+    tau = a[0] - 2 * a[1] + a[2]
+    delta = a[1] * a[1] - (a[0] + a[1]) * a[2] + a[2] * a[2] + (a[0] - a[1]) * a[3]
+    E.assume(And(q * q == delta, D != 0, r * D == tau + q, r2 * D == tau - q))
+    s = (3 * r2 - r) / 2
+    E.ensure("factorisation_at_the_first_root", cubic(a, t) - cubic(a, r) == -D * (t - r) * (t - r) * (t - s))
+    s2 = (3 * r - r2) / 2
+    E.ensure("factorisation_at_the_second_root", cubic(a, t) - cubic(a, r2) == -D * (t - r2) * (t - r2) * (t - s2))
+    E.ensure("delta_is_tau^2+D*c", delta == tau * tau + D * (a[1] - a[0]))
+
+
+def diff_bracket(u, w, r, r2):
+    return (w - r) * (w - r2) + (u - r) * (u - r2) + ((w - r) * (u - r2) + (u - r) * (w - r2)) / 2
+
+
+@ob("C08/lemma/cubic_difference_between_two_parameters", kind="L", samples=0, props=["C08"])
+def _(E):
+    """X(w) - X(u) = -D (w - u) B with B a sum of products of (parameter - critical point) factors: on a stretch that
+    contains no critical point in its interior all those products are >= 0, i.e. X is monotone there"""
+    a0, D, r, r2, u, w = E.reals("a0 D r r2 u w")
+    c = -D * r * r2
+    tau = D * (r + r2) / 2
+    a1 = a0 + c
+    a2 = tau - a0 + 2 * a1
+    a3 = a0 - 3 * a1 + 3 * a2 - D
+    a = [a0, a1, a2, a3]
+    E.ensure("difference_identity", cubic(a, w) - cubic(a, u) == -D * (w - u) * diff_bracket(u, w, r, r2))
+
+
+@ob("C08/lemma/cubic_without_critical_points_is_monotone", kind="L", samples=0, props=["C08"])
+def _(E):
+    """if the derivative 3(c + 2 tau t - D t^2) has no real root (delta < 0) then X is monotone: X(t) lies between the
+    end values for t in [0,1]"""
+    a = E.reals("a0 a1 a2 a3")
+    t = E.real("t")
+    D = a[0] - 3 * a[1] + 3 * a[2] - a[3]
+    tau = a[0] - 2 * a[1] + a[2]
+    c = a[1] - a[0]
+    E.assume(And(t >= 0, t <= 1, tau * tau + D * c < 0))
+    X = cubic(a, t)
+    E.ensure("between_the_end_values", And(X >= Min(a[0], a[3]), X <= Max(a[0], a[3])))
+
+
+def param_cubic(E, a0, D, r, r2):
+    c = -D * r * r2
+    tau = D * (r + r2) / 2
+    a1 = a0 + c
+    a2 = tau - a0 + 2 * a1
+    a3 = a0 - 3 * a1 + 3 * a2 - D
+    return [a0, a1, a2, a3], tau
+
+
+@family("C08/lemma/cubic_monotone_pieces", [1, -1], kind="L", samples=0, props=["C08"])
+def _(E, sgn):
+    """with X'(t) = -3 D (t - r)(t - r2), r <= r2: X is monotone on (-inf, r], [r, r2] and [r2, inf), in the direction
+    given by the sign of D (difference identity + sign of the bracket)"""
+    a0, D, r, r2, u, w = E.reals("a0 D r r2 u w")
+    a, tau = param_cubic(E, a0, D, r, r2)
+    E.assume(And(r <= r2, u <= w, D > 0 if sgn == 1 else D < 0))
+    E.axiom(cubic(a, w) - cubic(a, u) == -D * (w - u) * diff_bracket(u, w, r, r2))   # proved: difference lemma
+    Xu, Xw = cubic(a, u), cubic(a, w)
+    dec, inc = (Xu >= Xw), (Xu <= Xw)
+    E.ensure("left_piece", Implies(w <= r, dec if sgn == 1 else inc))
+    E.ensure("middle_piece", Implies(And(r <= u, w <= r2), inc if sgn == 1 else dec))
+    E.ensure("right_piece", Implies(r2 <= u, dec if sgn == 1 else inc))
+
+
+@ob("C08/lemma/closed_form_roots_are_the_critical_points", kind="L", samples=0, props=["C08"])
+def _(E):
+    """(tau +- sqrt(delta)) / D are exactly the critical parameters r, r2 (delta = tau^2 + D c = D^2 (r - r2)^2 / 4)"""
+    a0, D, r, r2, q = E.reals("a0 D r r2 q")
+    a, tau = param_cubic(E, a0, D, r, r2)
+    delta = a[1] * a[1] - (a[0] + a[1]) * a[2] + a[2] * a[2] + (a[0] - a[1]) * a[3]
+    E.assume(And(D != 0, q >= 0, q * q == delta))
+    p1, p2 = (tau + q) / D, (tau - q) / D
+    E.ensure("delta_is_a_square", delta * 4 == D * D * (r - r2) * (r - r2))
+    E.ensure("each_closed_form_root_is_a_critical_point", And(Or(p1 == r, p1 == r2), Or(p2 == r, p2 == r2)))
+    E.ensure("both_critical_points_are_found", And(Or(p1 == r, p2 == r), Or(p1 == r2, p2 == r2)))
+
+
+def havoc_point(rec):
+    """contract of PathSegment.point on a cubic, as far as _real_minmax needs it: a fresh Point whose coordinate is the
+    value of the curve at that parameter (proved by C02/segment.point/bernstein/CubicBezier); the value is kept
+    abstract (a fresh variable) and related to other values only through the monotonicity lemma"""
+
+    def summary(E, args, kwargs):
+        seg, tt = args
+        k = len(rec)
+        vx, vy = E.real("val%dx" % k), E.real("val%dy" % k)
+        rec.append((tt, vx, vy))
+        return E.new("Point", x=vx, y=vy)
+
+    return summary
+
+
+@family("C08/CubicBezier._real_minmax/contains", [(ax, br) for ax in ("x", "y") for br in ("critical_points", "monotone")],
+        funcs=["CubicBezier._real_minmax", "CubicBezier.bbox"],
+        uses=["C08/lemma/cubic_monotone_pieces/1", "C08/lemma/cubic_monotone_pieces/-1",
+              "C08/lemma/closed_form_roots_are_the_critical_points",
+              "C08/lemma/cubic_without_critical_points_is_monotone", "C08/lemma/cubic_difference_between_two_parameters",
+              "C02/segment.point/bernstein/CubicBezier"],
+        timeout_ms=60000)
+def _(E, case):
+    axis, branch = case
+    v = 0 if axis == "x" else 1
+    s = mk_seg(E, "CubicBezier", "s")
+    P = ctrl(s, "CubicBezier")
+    if branch == "critical_points":
+        # every cubic coordinate function with D != 0 and real critical points r <= r2 is
+        #   X'(t) = -3 D (t - r)(t - r2):   c = a1 - a0 = -D r r2,   tau = a0 - 2 a1 + a2 = D (r + r2) / 2
+        # so the four control values are parametrised by (a0, D, r, r2) - no loss of generality, no division
+        a0 = P[0][v]
+        D, r, r2 = E.reals("D r r2", lambda q: q.uniform(-3, 3))
+        sgn = E.choice("sign_of_D", [1, -1])
+        E.assume(And(D > 0 if sgn == 1 else D < 0, r <= r2))
+        a, tau = param_cubic(E, a0, D, r, r2)
+        for nm, val in (("control1", a[1]), ("control2", a[2]), ("end", a[3])):
+            pnt = E.get(s, nm)
+            if v == 0:
+                pnt.x = val
+            else:
+                pnt.y = val
+    else:
+        a = [p[v] for p in P]
+        D = a[0] - 3 * a[1] + 3 * a[2] - a[3]
+        tau = a[0] - 2 * a[1] + a[2]
+        E.assume(tau * tau + D * (a[1] - a[0]) < 0)
+    E.assume(Or(D >= E.const(1e-8), D <= -E.const(1e-8)))     # the closed-form branch (near-quadratic: bounded check)
+    t = E.real("t", lambda q: q.uniform(0, 1))
+    E.assume(And(t >= 0, t <= 1))
+    if E.mode != "symbolic":
+        lo, hi = tuple(E.call(s, "_real_minmax", v))
+        X = cubic(a, t)
+        E.tol(1e-9, 1e-9)
+        E.ensure("lower_bound_contains_every_curve_point", lo <= X)
+        E.ensure("upper_bound_contains_every_curve_point", X <= hi)
+        return
+    rec = []
+    E.use_contract("PathSegment.point", havoc_point(rec))
+    lo, hi = tuple(E.call(s, "_real_minmax", v))
+    E.drop_contract("PathSegment.point")
+    Xt = E.real("X_at_t")
+    pts = [(tt, (vx, vy)[v]) for tt, vx, vy in rec] + [(t, Xt)]
+    E.ensure("candidates_include_both_end_parameters", And(len(rec) >= 2, rec[0][0] == 0, rec[1][0] == 1))
+    if branch == "critical_points":
+        q = E.code_sqrt(tau * tau + D * (a[1] - a[0]))
+        for tt, _val in pts[2:-1]:
+            E.axiom(Or(tt == r, tt == r2))                       # lemma closed_form_roots_are_the_critical_points
+        p1, p2 = (tau + q) / D, (tau - q) / D
+        E.axiom(And(Or(p1 == r, p2 == r), Or(p1 == r2, p2 == r2), Or(p1 == r, p1 == r2), Or(p2 == r, p2 == r2)))
+        # every critical parameter strictly inside (0,1) is among the candidates (the code appends r1, r2 if 0<r<1)
+        E.ensure("interior_critical_points_are_candidates",
+                 And(Implies(And(r > 0, r < 1), Or(*[tt == r for tt, _ in pts[2:-1]]) if len(pts) > 3 else False),
+                     Implies(And(r2 > 0, r2 < 1), Or(*[tt == r2 for tt, _ in pts[2:-1]]) if len(pts) > 3 else False)))
+        # values at the critical parameters themselves (whether or not they are candidates)
+        Xr, Xr2 = E.real("X_at_r"), E.real("X_at_r2")
+        pts += [(r, Xr), (r2, Xr2)]
+        for i, (u, xu) in enumerate(pts):
+            for j, (w, xw) in enumerate(pts):
+                if i == j:
+                    continue
+                # same parameter, same value (X is a function) ...
+                E.axiom(Implies(u == w, xu == xw))
+                # ... and the three monotone pieces (lemma cubic_monotone_pieces, instance (u, w))
+                dec, inc = (xu >= xw), (xu <= xw)
+                E.axiom(Implies(And(u <= w, w <= r), dec if sgn == 1 else inc))
+                E.axiom(Implies(And(u <= w, r <= u, w <= r2), inc if sgn == 1 else dec))
+                E.axiom(Implies(And(u <= w, r2 <= u), dec if sgn == 1 else inc))
+    else:
+        E.axiom(And(Xt >= Min(pts[0][1], pts[1][1]), Xt <= Max(pts[0][1], pts[1][1])))   # monotone lemma
+    E.ensure("lower_bound_contains_every_curve_point", lo <= Xt)
+    E.ensure("upper_bound_contains_every_curve_point", Xt <= hi)
+    cand = [(tt, val) for tt, val in pts[:len(rec)]]
+    E.ensure("tight:each_bound_is_the_curve_value_at_a_parameter_in_[0,1]",
+             And(Or(*[lo == val for _, val in cand]), Or(*[hi == val for _, val in cand]),
+                 *[And(tt >= 0, tt <= 1) for tt, _ in cand]))
